@@ -261,6 +261,12 @@ PoolC11(z) ==
      ELSE {C11Case(cq, eq) : cq \in SeqsOf(CalRows, 0, 1), eq \in SeqsOf(ExcRowsQuick, 0, 2)}
           \cup {C11Case(cq, eq) : cq \in SeqsOf(CalRows, 2, 2), eq \in SeqsOf(ExcRowsQuick, 0, 1)})
     \cup {MkCase(SetRows(BaseFeed, "agency.txt", ag), FALSE, NoBase, FALSE, "", 0) : ag \in TzAgencies}
+    \cup (* date token -3 is 00010101: in UTC that day's midnight is Go's zero time.Time, a value like any other *)
+    {MkCase(SetRows(SetRows(SetRows(SetRows(BaseFeed, "calendar.txt", cq), "calendar_dates.txt", eq), "agency.txt", <<Agency(2, 2, tz)>>), "routes.txt", <<Route(1, 2, 1)>>),
+            FALSE, NoBase, FALSE, "", 0)
+        : tz \in {2, 4},
+          cq \in {<<>>, <<Calendar(2, 0 - 3, 4)>>, <<Calendar(2, 0 - 3, 0 - 3)>>},
+          eq \in {<<CalDate(2, D(3), Num(1))>>, <<CalDate(2, D(0 - 3), Num(1)), CalDate(2, D(3), Num(1))>>, <<CalDate(2, D(0 - 3), Num(2)), CalDate(2, D(3), Num(2)), CalDate(2, D(1), Num(1))>>}}
 PoolC11b(z) ==
     {MkCase(SetRows(SetRows(BaseFeed, "calendar.txt", <<Calendar(3, 3, 5)>>), "calendar_dates.txt", eq), FALSE, NoBase, FALSE, "", 0)
         : eq \in SeqsOf({CalDate(3, D(d), Num(typ)) : d \in {1, 4, 8}, typ \in {1, 2, 3}} \cup {CalDate(2, D(2), Num(1))}, 3, 3)}
